@@ -102,6 +102,11 @@ def gen_import_graph(root, rng):
                 src += f'pytest_plugins = ["{plugins[0]}"]\n'
                 src += "pytest_plugins = [" + ", ".join(f'"{p}"' for p in plugins[1:]) + "]\n"
                 ws.features.add(("pytest_plugins_reassigned",))
+            elif rng.random() < 0.2:
+                # a later, non-literal assignment replaces the literal list: nothing is declared any more
+                src += "pytest_plugins = [" + ", ".join(f'"{p}"' for p in plugins) + "]\n"
+                src += rng.choice(["pytest_plugins = _discover_plugins()\n", "pytest_plugins = PLUGINS\n", "pytest_plugins = None\n"])
+                ws.features.add(("pytest_plugins_replaced_by_dynamic_value",))
             else:
                 src += "pytest_plugins = [" + ", ".join(f'"{p}"' for p in plugins) + "]\n"
         ws.files[m["rel"]] = src + HDR + fx(m["fix"], k)
@@ -277,6 +282,11 @@ def gen_venv_layout(root, outside, rng):
         add(target, f"{base}/{pkgdir}/plugin.py", nm, tier)
         for extra_ in range(rng.randint(0, 2)):
             add(target, f"{base}/{pkgdir}/plugin.py", f"{nm}_x{extra_}", tier)      # several fixtures in one plugin module
+        if rng.random() < 0.5:
+            # the assignment style (name = pytest.fixture()(func)) is classified like the decorator style
+            k[0] += 1
+            target[f"{base}/{pkgdir}/plugin.py"] += f"def _impl_{nm}():\n    return {k[0]}\n\n{nm}_asg = pytest.fixture()(_impl_{nm})\n\n"
+            expect[f"{nm}_asg"] = {"tier": tier, "rel": f"{base}/{pkgdir}/plugin.py", "k": k[0]}
         target[f"{base}/{pkgdir}/__init__.py"] = ""
         how = rng.choice(["none", "star", "explicit", "plugins"])
         if how != "none":
